@@ -17,7 +17,7 @@ echo "APPLY: ok ($(git -C $WT diff --stat | tail -1))"
 echo "BUILD: ok"
 if [ -z "${SKIP_SUITE:-}" ]; then
   fails=""
-  for i in 1 2; do
+  for i in 1 2 3; do
     out=$(cd $WT && go test -vet=off -count=1 -timeout 20m ./... 2>&1 | grep -E "^(FAIL|--- FAIL|panic)" | head -8)
     if [ -z "$out" ]; then fails=""; break; else fails="$out"; fi
   done
